@@ -42,6 +42,7 @@ type twinSpec struct {
 	RunSeed      int64 `json:"runSeed"`
 	Epochs       int   `json:"epochs"`
 	Thorough     bool  `json:"thorough"`
+	Big          bool  `json:"big"` // a population of several hundred organisms (few epochs)
 }
 
 type twinScenario struct {
@@ -54,6 +55,9 @@ type twinScenario struct {
 func buildTwinScenario(spec twinSpec) *twinScenario {
 	sg := newG(spec.ScenarioSeed, "twinScenario", spec.Thorough)
 	opts := popOpts(sg)
+	if spec.Big {
+		opts.PopSize = 512 + sg.intn(400)
+	}
 	sc := &twinScenario{opts: opts}
 	if sg.chance(0.7) {
 		sc.origin = startGenomeFiles[sg.intn(len(startGenomeFiles))]
@@ -225,11 +229,21 @@ func opTwinRun(g *G) (interface{}, []uint64, int, interface{}) {
 	if g.thorough {
 		spec.Epochs = 10 + g.intn(51)
 	}
+	// sizes at which an implementation might switch strategy (block-wise / per-processor work): few epochs, and the
+	// perturbed twin runs on few processors while this one runs on all
+	big := g.chance(0.1)
+	if big {
+		spec.Big = true
+		spec.Epochs = 1 + g.intn(2)
+	}
 	// A: plain
 	a := runTwin(spec, nil)
 	// B: same process, perturbed
 	priv := rand.New(rand.NewSource(g.seed63()))
 	procsB := procChoices[g.intn(len(procChoices))]
+	if big {
+		procsB = 1 + g.intn(3)
+	}
 	prevProcs := runtime.GOMAXPROCS(procsB)
 	prevGC := debug.SetGCPercent(5)
 	stop := make(chan struct{})
